@@ -382,3 +382,65 @@ func checkNumericEquality(c *core.Ctx, rule string) {
 			"`"+name+"` accepts an Int and a Float operand (Any, Any) and compares them with Value.Equal, which separates values by TypeID before looking at them: 1 = 1.0 is false, `where a = 1` on a JSON file returns nothing, and a csv-Int to json-number join matches nothing")
 	}
 }
+
+// checkUniqueNaming (UNIQ): output columns are found by name, so the names a SELECT list (and a GROUP BY) gives its
+// columns must be pairwise distinct. Making a name distinct by appending one counter value is not enough — the
+// suffixed name can itself be taken (x, x_1, x_1) — so the renaming has to loop until the candidate is unused, and
+// record the name it finally chose. Decided at both places that name output columns.
+func checkUniqueNaming(c *core.Ctx, rule string) {
+	p := c.Prog
+	for _, spec := range [][2]string{{"logical", "(*Map).Typecheck"}, {"parser", "ParseSelect"}} {
+		fn := p.Func(spec[0], spec[1])
+		key := spec[0] + "." + spec[1] + "/column names"
+		if fn == nil {
+			c.Unknown(rule, key, 0, "anchor not found")
+			continue
+		}
+		c.SawFunc(spec[0] + "." + spec[1])
+		info := fn.Info()
+		n, bad := 0, ""
+		core.WalkStack(fn.Decl.Body, func(nd ast.Node, stack []ast.Node) bool {
+			as, ok := nd.(*ast.AssignStmt)
+			if !ok || as.Tok != token.ASSIGN || len(as.Lhs) != 1 || len(as.Rhs) != 1 {
+				return true
+			}
+			lid, ok := as.Lhs[0].(*ast.Ident)
+			if !ok {
+				return true
+			}
+			call, ok := as.Rhs[0].(*ast.CallExpr)
+			if !ok || p.CalleeName(info, call) != "fmt.Sprintf" || len(call.Args) < 3 {
+				return true
+			}
+			if tv := info.Types[call.Args[0]]; tv.Value == nil || !strings.Contains(tv.Value.ExactString(), "%s_%d") {
+				return true
+			}
+			n++
+			// the renaming must sit in a loop whose condition asks whether the candidate is taken
+			inLoop := false
+			for i := len(stack) - 1; i >= 0; i-- {
+				if _, isLit := stack[i].(*ast.FuncLit); isLit {
+					break
+				}
+				if fs, ok := stack[i].(*ast.ForStmt); ok && fs.Cond != nil {
+					ast.Inspect(fs.Cond, func(m ast.Node) bool {
+						if ix, ok := m.(*ast.IndexExpr); ok {
+							if _, isMap := info.TypeOf(ix.X).Underlying().(*types.Map); isMap && core.ExprStr(ix.Index) == lid.Name {
+								inLoop = true
+							}
+						}
+						return true
+					})
+				}
+			}
+			if !inLoop && bad == "" {
+				bad = fmt.Sprintf("%s: a taken name is made distinct by appending one counter value, without checking that the result is free: three columns named x become x, x_1, x_1 — the second and third collide, one of them vanishes from json output and an outer query reads the wrong column", p.Pos(as.Pos()))
+			}
+			return true
+		})
+		if bad == "" && n == 0 {
+			bad = "no renaming of duplicate column names found"
+		}
+		c.Decide(bad == "", rule, key, fn.Decl.Pos(), n, "duplicates are renamed in a loop until the candidate is unused", bad)
+	}
+}
